@@ -143,3 +143,17 @@ def _kf04(case, impl_res, bad):
     absent = set(_absent_labels(case))
     mc = case.get("min_count") or 0
     return all((g in absent or mc > 1) and got is True for g, got, _ in bad)
+
+
+ND_PREDICATES = {}
+
+
+def classify_nd(pid, info):
+    for fid, fn in ND_PREDICATES.items():
+        if active(fid) and pid in FINDINGS[fid].get("properties", [pid]):
+            try:
+                if fn(info):
+                    return fid
+            except Exception:  # noqa: BLE001
+                pass
+    return None
